@@ -284,6 +284,7 @@ struct Stats {
     distinct_traces: HashSet<u64>,
     partitions: BTreeSet<String>,
     workers_hist: BTreeMap<usize, usize>,
+    cpus_seen_hist: BTreeMap<usize, usize>,
     switches_hist: BTreeMap<String, usize>,
     dir_classes: BTreeSet<String>,
     depth_hist: BTreeMap<usize, usize>,
@@ -410,6 +411,7 @@ fn absorb(st: &mut Stats, ctx: &Ctx, idx: usize, h: &History, trace: &Trace, vs:
                 }
                 for e in &c.events {
                     match e {
+                        Event::Start { cpus_seen } => *st.cpus_seen_hist.entry(*cpus_seen).or_default() += 1,
                         Event::Answers { count, .. } => st.lookups_answered += count,
                         Event::OwnWords { queries, winners_hash, .. } => {
                             st.own_word_queries += queries;
@@ -943,6 +945,16 @@ fn cmd_run(o: &Opts) -> i32 {
         println!("note: fixed finding on record: property={} {} {}", k.property, k.commit.clone().unwrap_or_default(), k.what);
     }
     let wall = t0.elapsed().as_secs_f64();
+    {
+        let ru = |who| unsafe {
+            let mut r: libc::rusage = std::mem::zeroed();
+            libc::getrusage(who, &mut r);
+            (r.ru_utime.tv_sec as f64 + r.ru_utime.tv_usec as f64 / 1e6, r.ru_stime.tv_sec as f64 + r.ru_stime.tv_usec as f64 / 1e6)
+        };
+        let (su, ss) = ru(libc::RUSAGE_SELF);
+        let (cu, cs) = ru(libc::RUSAGE_CHILDREN);
+        println!("simctl: cpu seconds: simulator {su:.1} user + {ss:.1} system, children {cu:.1} user + {cs:.1} system");
+    }
     write_evidence(o, prop, &st, violations, t0, corpus_n, extra);
     println!(
         "simctl: {} histories, {} starts, {} cli runs, {} faults fired, {} distinct non-trivial, {:.1}s -> {}",
@@ -994,6 +1006,7 @@ fn write_evidence(o: &Opts, prop: &str, st: &Stats, violations: usize, t0: Insta
         "index_builds": st.builds,
         "rebuilds": st.rebuilds,
         "workers_histogram": st.workers_hist.iter().map(|(k, v)| (k.to_string(), *v)).collect::<BTreeMap<_, _>>(),
+        "cpus_seen_by_children_histogram": st.cpus_seen_hist.iter().map(|(k, v)| (k.to_string(), *v)).collect::<BTreeMap<_, _>>(),
         "context_switch_histogram": st.switches_hist,
         "directory_classes_seen": st.dir_classes,
         "fault_depth_histogram": st.depth_hist.iter().map(|(k, v)| (k.to_string(), *v)).collect::<BTreeMap<_, _>>(),
